@@ -83,7 +83,8 @@ func (c c16Cfg) timeout(k int) time.Duration {
 type c16Msg struct {
 	kind string // go | m | cancel | then (to R)   req (to S)   rep (reply)
 	id   int
-	seq  int // arrival index of messages told to R by the (single) client
+	seq  int  // arrival index of messages told to R by the (single) client
+	held bool // grain requester only: told while R.blockingCount>0 (the grain keeps such messages queued)
 }
 
 func (m *c16Msg) key() string { return m.kind + strconv.Itoa(m.id) }
@@ -102,6 +103,7 @@ type c16Cfg struct {
 	clientStop  bool // offer PID.Shutdown from the client goroutine in addition to PoisonPill
 	tmoRev      bool // later requests have the shorter timeout
 	burst       bool // the first go issues calls 0 and 1 from the same handler invocation
+	grainReq    bool // the requester is a grain (GrainContext.RequestGrain / RequestActor)
 	horizon     int
 	bound       int
 }
@@ -132,7 +134,8 @@ type c16Ent struct {
 
 type c16World struct {
 	cfg c16Cfg
-	r   *PID
+	r   *PID      // requester actor ...
+	g   *grainPID // ... or requester grain
 
 	mu       sync.Mutex
 	trace    []c16Ent
@@ -224,28 +227,40 @@ func (w *c16World) outstandingLocked() (all, blocking int) {
 	return
 }
 
-// ---- requester -----------------------------------------------------------------------------------
+// ---- requester (actor or grain; the handler logic is shared) ----------------------------------------
 
-type c16Requester struct{ w *c16World }
+// c16Issuer sends request k with the requester's own API. call==nil means the request was refused
+// (actor API: nil call + error on the context); the grain API always returns a call (a refused one
+// has completed with the error already, so its Then fires at once).
+type c16Issuer func(k int, req *c16Msg, opts []RequestOption) (call RequestCall, refused string)
 
-func (a *c16Requester) PreStart(*Context) error { return nil }
-func (a *c16Requester) PostStop(*Context) error { return nil }
-
-func (a *c16Requester) Receive(rctx *ReceiveContext) {
-	w := a.w
-	msg, ok := rctx.Message().(*c16Msg)
-	if !ok {
-		return // PostStart etc.
+func (w *c16World) counters() (bc, ifc int64) {
+	var re *reentrancyState
+	if w.g != nil {
+		re = w.g.reentrancy.Load()
+	} else if w.r != nil {
+		re = w.r.reentrancy.Load()
 	}
+	if re != nil {
+		bc, ifc = re.blockingCount.Load(), re.inFlightCount.Load()
+	}
+	return
+}
+
+func (w *c16World) turnState() uint32 {
+	if w.g != nil {
+		return w.g.schedState.Load()
+	}
+	return w.r.schedState.Load()
+}
+
+// handle is the body of the requester's message handler.
+func (w *c16World) handle(msg *c16Msg, issue c16Issuer) {
 	w.open.Add(1)
 	defer w.open.Add(-1)
 
 	// --- stash clause: an ordinary message handler starts while a blocking request is outstanding?
-	self := rctx.Self()
-	var bc, ifc int64
-	if re := self.reentrancy.Load(); re != nil {
-		bc, ifc = re.blockingCount.Load(), re.inFlightCount.Load()
-	}
+	bc, ifc := w.counters()
 	w.mu.Lock()
 	_, blocking := w.outstandingLocked()
 	stop := w.stopReq
@@ -262,9 +277,9 @@ func (a *c16Requester) Receive(rctx *ReceiveContext) {
 
 	switch msg.kind {
 	case "go":
-		a.issue(rctx)
+		w.issue(issue)
 		if w.cfg.burst && msg.id == 0 {
-			a.issue(rctx) // the first go issues two requests from the same handler invocation
+			w.issue(issue) // the first go issues two requests from the same handler invocation
 		}
 		if w.cfg.hold && msg.id == 0 {
 			w.rHeld.Store(true)
@@ -285,18 +300,21 @@ func (a *c16Requester) Receive(rctx *ReceiveContext) {
 		w.thenSet[msg.id] = true
 		w.mu.Unlock()
 		if call != nil && !already {
-			// If the call has completed already, Then runs the continuation synchronously inside this
-			// handler (documented): that is still R's turn, and the "other open invocation" is this
-			// handler itself, so it steps aside for the duration of the Then call.
-			w.open.Add(-1)
-			call.Then(a.continuation(msg.id))
-			w.open.Add(1)
+			w.then(call, msg.id)
 		}
 	}
 }
 
-func (a *c16Requester) issue(rctx *ReceiveContext) {
-	w := a.w
+// then registers the continuation. If the call has completed already, Then runs the continuation
+// synchronously inside the calling handler (documented): that is still R's turn, and the "other open
+// invocation" is that handler itself, so it steps aside for the duration of the Then call.
+func (w *c16World) then(call RequestCall, k int) {
+	w.open.Add(-1)
+	call.Then(w.continuation(k))
+	w.open.Add(1)
+}
+
+func (w *c16World) issue(issue c16Issuer) {
 	cfg := w.cfg
 	w.mu.Lock()
 	k := w.nextReq
@@ -313,40 +331,82 @@ func (a *c16Requester) issue(rctx *ReceiveContext) {
 	case 2:
 		opts = append(opts, WithReentrancyMode(reentrancy.StashNonReentrant))
 	}
-	req := &c16Msg{kind: "req", id: k}
-	var call RequestCall
-	switch cfg.api[k] {
-	case c16APIName:
-		call = rctx.RequestName(w.sPid[k].Name(), req, opts...)
-	case c16APIGrain:
-		call = rctx.RequestGrain(w.sGrain[k], req, opts...)
-	default:
-		call = rctx.Request(w.sPid[k], req, opts...)
-	}
+	call, refused := issue(k, &c16Msg{kind: "req", id: k}, opts)
 	w.mu.Lock()
 	w.issued[k] = true
 	if call == nil {
-		err := rctx.getError()
-		w.rejected[k] = c16ErrName(err)
+		w.rejected[k] = refused
 		w.mu.Unlock()
-		rctx.Err(nil) // the rejection is observed here; do not fail (suspend) the actor for it
-	} else {
-		w.accepted[k] = true
-		w.calls[k] = call
-		w.deadline[k] = deadline
-		all, _ := w.outstandingLocked()
-		stop := w.stopReq
-		w.mu.Unlock()
-		if cfg.maxInFlight > 0 && !cfg.lateThen && !stop && all > cfg.maxInFlight {
-			w.fail("in-flight-limit-exceeded", "call %d accepted: %d calls outstanding, limit %d", k, all, cfg.maxInFlight)
-		}
-		if !cfg.lateThen {
-			w.mu.Lock()
-			w.thenSet[k] = true
-			w.mu.Unlock()
-			call.Then(a.continuation(k))
-		}
+		return
 	}
+	w.accepted[k] = true
+	w.calls[k] = call
+	w.deadline[k] = deadline
+	w.mu.Unlock()
+	if !cfg.lateThen {
+		w.mu.Lock()
+		w.thenSet[k] = true
+		w.mu.Unlock()
+		w.then(call, k) // a call refused by the grain API completes right here
+	}
+	w.mu.Lock()
+	all, _ := w.outstandingLocked()
+	stop := w.stopReq
+	w.mu.Unlock()
+	if cfg.maxInFlight > 0 && !cfg.lateThen && !stop && all > cfg.maxInFlight {
+		w.fail("in-flight-limit-exceeded", "call %d accepted: %d calls outstanding, limit %d", k, all, cfg.maxInFlight)
+	}
+}
+
+type c16Requester struct{ w *c16World }
+
+func (a *c16Requester) PreStart(*Context) error { return nil }
+func (a *c16Requester) PostStop(*Context) error { return nil }
+
+func (a *c16Requester) Receive(rctx *ReceiveContext) {
+	w := a.w
+	msg, ok := rctx.Message().(*c16Msg)
+	if !ok {
+		return // PostStart etc.
+	}
+	w.handle(msg, func(k int, req *c16Msg, opts []RequestOption) (RequestCall, string) {
+		var call RequestCall
+		switch w.cfg.api[k] {
+		case c16APIName:
+			call = rctx.RequestName(w.sPid[k].Name(), req, opts...)
+		case c16APIGrain:
+			call = rctx.RequestGrain(w.sGrain[k], req, opts...)
+		default:
+			call = rctx.Request(w.sPid[k], req, opts...)
+		}
+		if call == nil {
+			name := c16ErrName(rctx.getError())
+			rctx.Err(nil) // the refusal is observed here; do not fail (suspend) the actor for it
+			return nil, name
+		}
+		return call, ""
+	})
+}
+
+// c16ReqGrain is the requester of the grain scenarios (GrainContext.RequestGrain / RequestActor).
+type c16ReqGrain struct{ w *c16World }
+
+func (g *c16ReqGrain) OnActivate(context.Context, *GrainProps) error   { return nil }
+func (g *c16ReqGrain) OnDeactivate(context.Context, *GrainProps) error { return nil }
+func (g *c16ReqGrain) OnReceive(gctx *GrainContext) {
+	w := g.w
+	msg, ok := gctx.Message().(*c16Msg)
+	if !ok {
+		gctx.Unhandled()
+		return
+	}
+	defer gctx.NoErr() // releases the TellGrain caller
+	w.handle(msg, func(k int, req *c16Msg, opts []RequestOption) (RequestCall, string) {
+		if w.cfg.api[k] == c16APIGrain {
+			return gctx.RequestGrain(w.sGrain[k], req, opts...), ""
+		}
+		return gctx.RequestActor(w.sPid[k].Name(), req, opts...), ""
+	})
 }
 
 func c16ErrName(err error) string {
@@ -365,17 +425,13 @@ func c16ErrName(err error) string {
 	return "err(" + err.Error() + ")"
 }
 
-func (a *c16Requester) continuation(k int) func(any, error) {
-	w := a.w
+func (w *c16World) continuation(k int) func(any, error) {
 	return func(res any, err error) {
 		n := w.open.Add(1)
 		defer w.open.Add(-1)
-		st := w.r.schedState.Load()
+		st := w.turnState()
 		gid, dq := c16Goid(), w.deqGoid.Load()
-		var bc, ifc int64
-		if re := w.r.reentrancy.Load(); re != nil {
-			bc, ifc = re.blockingCount.Load(), re.inFlightCount.Load()
-		}
+		bc, ifc := w.counters()
 		if n != 1 {
 			w.fail("continuation-overlaps-handler", "continuation of call %d ran while %d other handler/continuation invocation(s) of R were open", k, n-1)
 		}
@@ -383,7 +439,7 @@ func (a *c16Requester) continuation(k int) func(any, error) {
 		// is R's handler here, so the turn check applies to every invocation.
 		if st != dispatchProcessing {
 			w.fail("continuation-off-turn", "continuation of call %d ran while R.schedState=%d (Processing=%d)", k, st, dispatchProcessing)
-		} else if gid != dq {
+		} else if w.g == nil && gid != dq {
 			w.fail("continuation-off-turn", "continuation of call %d ran on a goroutine that is not the one that did the latest dequeue of R's mailbox", k)
 		}
 		var what string
@@ -506,17 +562,39 @@ func c16Run(t *testing.T, cfg c16Cfg, c *vsched.Chooser) vsched.Outcome {
 			}
 			w.sPid[k] = s
 		}
-		r, err := sys.Spawn(ctx, "c16-r", &c16Requester{w: w}, WithLongLived(),
-			WithMailbox(&c16Mailbox{UnboundedMailbox: NewUnboundedMailbox(), w: w}),
-			WithReentrancy(reentrancy.New(reentrancy.WithMode(cfg.defMode), reentrancy.WithMaxInFlight(cfg.maxInFlight))))
-		if err != nil {
-			panic(err)
+		var r *PID
+		var gid *GrainIdentity
+		var reent *reentrancyState
+		if cfg.grainReq {
+			id, err := sys.GrainIdentity(ctx, "c16-rg", func(context.Context) (Grain, error) { return &c16ReqGrain{w: w}, nil },
+				WithLongLivedGrain(),
+				WithGrainReentrancy(reentrancy.New(reentrancy.WithMode(cfg.defMode), reentrancy.WithMaxInFlight(cfg.maxInFlight))))
+			if err != nil {
+				panic(err)
+			}
+			gp, ok := sys.grains.Get(id.String())
+			if !ok {
+				panic("c16: requester grain not activated")
+			}
+			gid, w.g = id, gp
+			reent = gp.reentrancy.Load()
+		} else {
+			a, err := sys.Spawn(ctx, "c16-r", &c16Requester{w: w}, WithLongLived(),
+				WithMailbox(&c16Mailbox{UnboundedMailbox: NewUnboundedMailbox(), w: w}),
+				WithReentrancy(reentrancy.New(reentrancy.WithMode(cfg.defMode), reentrancy.WithMaxInFlight(cfg.maxInFlight))))
+			if err != nil {
+				panic(err)
+			}
+			r, w.r = a, a
+			reent = r.reentrancy.Load()
 		}
-		w.r = r
-		reent := r.reentrancy.Load()
+		if reent == nil {
+			panic("c16: requester has no reentrancy state")
+		}
 		vfSettle()
 
 		goTold, mTold, seq := 0, 0, 0
+		var told []*c16Msg
 		cancelFired := [c16MaxReq]bool{}
 		thenTold := [c16MaxReq]bool{}
 		var shutdownDone atomic.Bool
@@ -524,6 +602,15 @@ func c16Run(t *testing.T, cfg c16Cfg, c *vsched.Chooser) vsched.Outcome {
 		tellR := func(m *c16Msg) {
 			m.seq = seq
 			seq++
+			told = append(told, m)
+			if cfg.grainReq {
+				// TellGrain returns when the handler has finished (or after DefaultGrainRequestTimeout of
+				// virtual time), so every tell gets its own client goroutine; events are still separated
+				// by quiescence, hence arrival order = event order.
+				m.held = reent.blockingCount.Load() > 0
+				go func() { _ = sys.TellGrain(ctx, gid, m) }()
+				return
+			}
 			_ = Tell(ctx, r, m)
 		}
 
@@ -603,9 +690,13 @@ func c16Run(t *testing.T, cfg c16Cfg, c *vsched.Chooser) vsched.Outcome {
 					w.mu.Lock()
 					w.stopReq = true
 					w.mu.Unlock()
+					if cfg.grainReq {
+						go func() { _ = sys.TellGrain(ctx, gid, new(PoisonPill)) }()
+						return
+					}
 					_ = Tell(ctx, r, new(PoisonPill))
 				}})
-				if cfg.clientStop {
+				if cfg.clientStop && !cfg.grainReq {
 					evs = append(evs, c16Event{"shutdown", 1, func() {
 						w.mu.Lock()
 						w.stopReq = true
@@ -715,10 +806,21 @@ func c16Run(t *testing.T, cfg c16Cfg, c *vsched.Chooser) vsched.Outcome {
 			}
 		}
 		held := map[string]bool{}
-		for _, k := range order {
-			a := per[k]
-			if a.deq >= 2 || (a.deq == 1 && a.handled == 0) {
-				held[k] = true
+		if cfg.grainReq {
+			// a grain keeps the messages that arrive while a blocking call is pending in its mailbox
+			for _, m := range told {
+				if per[m.key()] == nil {
+					per[m.key()] = &acct{seq: m.seq}
+					order = append(order, m.key())
+				}
+				held[m.key()] = m.held
+			}
+		} else {
+			for _, k := range order {
+				a := per[k]
+				if a.deq >= 2 || (a.deq == 1 && a.handled == 0) {
+					held[k] = true
+				}
 			}
 		}
 		if !stopped {
@@ -761,7 +863,13 @@ func c16Run(t *testing.T, cfg c16Cfg, c *vsched.Chooser) vsched.Outcome {
 		for k := 0; k < cfg.nReq; k++ {
 			fmt.Fprintf(&sb, "| call%d issued=%v acc=%v rej=%s cb=%d:%s ", k, issued[k], accepted[k], rejected[k], cbCount[k], cbRes[k])
 		}
-		fmt.Fprintf(&sb, "| stopped=%v running=%v", stopped, r.IsRunning())
+		running := false
+		if cfg.grainReq {
+			running = w.g.isActive()
+		} else {
+			running = r.IsRunning()
+		}
+		fmt.Fprintf(&sb, "| stopped=%v running=%v", stopped, running)
 		out.Obs = cfg.name + " " + sb.String()
 
 		relR()
@@ -842,6 +950,17 @@ func TestVerifC16(t *testing.T) {
 			mk("allowall-burst-max1"+sfx, A, 1, hold, func(c *c16Cfg) { c.burst = true; c.override[1] = 2 }),
 		)
 	}
+	// the requester is a grain (GrainContext.RequestGrain / RequestActor)
+	for _, hold := range []bool{false, true} {
+		sfx := map[bool]string{false: "", true: "-hold"}[hold]
+		gr := func(c *c16Cfg) { c.grainReq = true; c.api = [c16MaxReq]int{c16APIGrain, c16APIName, c16APIGrain} }
+		cfgs = append(cfgs,
+			mk("grainreq-allowall-max1"+sfx, A, 1, hold, gr),
+			mk("grainreq-stash-max0"+sfx, S, 0, hold, gr),
+			mk("grainreq-stash-burst-max2"+sfx, S, 2, hold, gr, func(c *c16Cfg) { c.burst = true; c.tmoRev = true }),
+			mk("grainreq-allowall-call1stash-cancelturn"+sfx, A, 0, hold, gr, func(c *c16Cfg) { c.override[1] = 2; c.cancelTurn = true }),
+		)
+	}
 	var scs []vsched.Scenario
 	for _, cfg := range cfgs {
 		cfg := cfg
@@ -849,7 +968,7 @@ func TestVerifC16(t *testing.T) {
 			Cfg: vsched.Config{Scenario: "c16-" + cfg.name, Bound: cfg.bound, SplitDepth: 2,
 				Params: map[string]any{"horizon": cfg.horizon, "maxInFlight": cfg.maxInFlight, "nReq": cfg.nReq, "nMsg": cfg.nMsg, "hold": cfg.hold,
 					"default_mode": mode[cfg.defMode], "override": fmt.Sprint(cfg.override[:cfg.nReq]), "api": fmt.Sprint(cfg.api[:cfg.nReq]),
-					"cancel_in_turn": cfg.cancelTurn, "late_then": cfg.lateThen, "client_shutdown": cfg.clientStop, "timeouts_reversed": cfg.tmoRev, "burst": cfg.burst}},
+					"cancel_in_turn": cfg.cancelTurn, "late_then": cfg.lateThen, "client_shutdown": cfg.clientStop, "timeouts_reversed": cfg.tmoRev, "burst": cfg.burst, "requester": map[bool]string{false: "actor", true: "grain"}[cfg.grainReq]}},
 			Run: func(c *vsched.Chooser) vsched.Outcome { return c16Run(t, cfg, c) },
 		})
 	}
